@@ -147,7 +147,8 @@ prop("C18", "other", _GENERIC + "Proved: stream framing loops _net_read, _net_wr
                   "A-inet: dns.inet.inet_pton / is_multicast are functions of the address text (assumed contracts)"])
 prop("C19", "other", _GENERIC + "Proved: _Node.search_in_node (binary search, termination); insert_nonfull on a leaf (replace in place / "
      "insert at the sorted position, strictly sorted and within the occupancy bound afterwards, modular over the search contract); "
-     "split of a full leaf (two minimal halves and the median, concatenation preserved, same creator). Internal-node restructuring, "
+     "split of a full leaf (two minimal halves and the median, concatenation preserved, same creator); the occupancy predicates "
+     "is_maximal/is_minimal (exactly 2t-1 / t-1 elements). Internal-node restructuring, "
      "copy-on-write isolation, cursors and whole histories are bounded (lists of child nodes inside heap objects are outside the "
      "engine's heap model).")
 prop("C20", "other", _GENERIC + "Proved: the node flag predicates read exactly their own bit; the B-tree zone's "
